@@ -49,6 +49,8 @@ type endo struct {
 	golden *epb.VMGoldenMeasurement
 }
 
+const plainTable, plainBundle = "1+2", "id+author"
+
 func endorsements() []endo {
 	var out []endo
 	tables := map[string]map[uint32][]byte{"none": nil, "1": {1: m1}, "1+2": {1: m1, 2: m2}}
@@ -60,7 +62,13 @@ func endorsements() []endo {
 		for bn, b := range bundles {
 			for _, svn := range []uint32{0, 5} {
 				// endorsed guest policy: the production value, none at all, a different one
-				for _, pol := range []uint64{endorsedPolicy, 0, 0x30000} {
+				// (and, for the plain table/bundle, one that differs from the production value only in a
+				// bit beyond the defined policy bits)
+				pols := []uint64{endorsedPolicy, 0, 0x30000}
+				if tn == plainTable && bn == plainBundle {
+					pols = append(pols, endorsedPolicy|1<<21, endorsedPolicy|1<<63)
+				}
+				for _, pol := range pols {
 					out = append(out, endo{fmt.Sprintf("table=%s bundle=%s svn=%d policy=%#x", tn, bn, svn, pol), &epb.VMGoldenMeasurement{
 						SevSnp: &epb.VMSevSnp{Svn: svn, Policy: pol, Measurements: t, CaBundle: b}}})
 				}
@@ -78,7 +86,10 @@ type baseSpec struct {
 
 func bases() []baseSpec {
 	out := []baseSpec{{"nil", nil}}
-	pols := map[string]uint64{"pol-unset": 0, "pol-equal": endorsedPolicy, "pol-differs": 0x30000}
+	// "differs-high": equal to the production value in the defined low bits, different only at bit 21
+	// (a newer ABI's bit), bit 32 or bit 63
+	pols := map[string]uint64{"pol-unset": 0, "pol-equal": endorsedPolicy, "pol-differs": 0x30000,
+		"pol-differs-bit21": endorsedPolicy | 1<<21, "pol-differs-bit32": endorsedPolicy | 1<<32, "pol-differs-bit63": endorsedPolicy | 1<<63}
 	meass := map[string][]byte{"meas-unset": nil, "meas=M1": m1, "meas=M2": m2, "meas-other": att.Meas(0x99)}
 	svns := map[string]uint32{"minsvn-unset": 0, "minsvn=5": 5, "minsvn=6": 6}
 	keyss := map[string][][]byte{"nokeys": nil, "keys": {[]byte("existing-id")}}
